@@ -216,6 +216,35 @@ func Runs(n, lo, hi int) []byte {
 	return b[:n]
 }
 
+// FarCopies is a 32 KiB incompressible block followed by many copies of 131..257 bytes taken from 24577..32768 bytes
+// back (tokens with the maximal number of extra bits: length symbols with 5 extra bits, distance symbol 29), separated
+// by 0..2 fresh literals; variant selects the lengths, distances and alignment.
+func FarCopies(variant int, seed uint64) []byte {
+	r := newRng(seed ^ uint64(variant)*0x9e37 ^ 0xfa2c)
+	b := Rand(32768+int(r.next()%7), seed^uint64(variant))
+	for i := 0; i < 16000/257; i++ {
+		b = append(b, byte(r.next()))
+	}
+	for k := 0; k < 400; k++ {
+		l := 131 + int(r.next()%127)
+		d := 24577 + int(r.next()%8192)
+		if variant%3 == 0 {
+			d = 28673 + int(r.next()%4096) // top extra bit set
+		}
+		if d > len(b) {
+			d = len(b)
+		}
+		start := len(b) - d
+		for i := 0; i < l; i++ {
+			b = append(b, b[start+i])
+		}
+		for i := uint64(0); i < r.next()%3; i++ {
+			b = append(b, byte(r.next()))
+		}
+	}
+	return b
+}
+
 // Kinds lists content kinds by name for ladders.
 var Kinds = []string{"zero", "rand", "r3", "text", "per7", "fib"}
 
